@@ -7,6 +7,7 @@ import (
 	"sort"
 	"strings"
 	"sync"
+	"sync/atomic"
 	"time"
 
 	consensusclient "github.com/attestantio/go-eth2-client"
@@ -73,6 +74,7 @@ type ctlWorld struct {
 	baseG  int
 	// per role (only touched by the role's goroutine): one-off jobs found / not found in the table
 	hit, miss []int64
+	staleMark string
 }
 
 // ---- scheduler double
@@ -87,16 +89,42 @@ type ctlJob struct {
 type ctlSched struct {
 	mu   sync.Mutex
 	jobs map[string]*ctlJob
-	wg   sync.WaitGroup
+	// running counts the goroutines the scheduler has started for jobs (not a
+	// WaitGroup: jobs are started while the world is waiting for quiescence)
+	running atomic.Int64
+	// now is the scheduler's idea of the time; due says what happens to a job
+	// whose run time is not after now when it is scheduled: 0 it waits to be
+	// fired like any other job, 1 its goroutine runs it at once (what the real
+	// scheduler does: the timer of a job that is already due fires immediately),
+	// 2 as 1 and the job has run to completion by the time ScheduleJob returns (a
+	// legal schedule of 1 - the job's goroutine simply was faster than the
+	// caller).
+	now func() time.Time
+	due uint64
 }
 
-func (s *ctlSched) ScheduleJob(ctx context.Context, _ string, name string, _ time.Time, job scheduler.JobFunc) error {
+func (s *ctlSched) ScheduleJob(ctx context.Context, _ string, name string, runtime time.Time, job scheduler.JobFunc) error {
 	s.mu.Lock()
-	defer s.mu.Unlock()
 	if _, ok := s.jobs[name]; ok {
+		s.mu.Unlock()
 		return scheduler.ErrJobAlreadyExists
 	}
 	s.jobs[name] = &ctlJob{fn: job, ctx: ctx}
+	s.mu.Unlock()
+	if s.due != 0 && s.now != nil && !runtime.After(s.now()) {
+		finished := make(chan struct{})
+		s.running.Add(1)
+		go func() {
+			defer s.running.Add(-1)
+			defer close(finished)
+			if j := s.take(name); j != nil { // unless it was cancelled or fired meanwhile
+				j.fn(j.ctx)
+			}
+		}()
+		if s.due == 2 {
+			<-finished
+		}
+	}
 	return nil
 }
 
@@ -111,9 +139,9 @@ func (s *ctlSched) SchedulePeriodicJob(ctx context.Context, _ string, name strin
 		return scheduler.ErrJobAlreadyExists
 	}
 	s.jobs[name] = &ctlJob{fn: job, runtime: runtime, ctx: ctx, periodic: true}
-	s.wg.Add(1)
+	s.running.Add(1)
 	go func() {
-		defer s.wg.Done()
+		defer s.running.Add(-1)
 		_, _ = runtime(ctx)
 	}()
 	return nil
@@ -157,9 +185,9 @@ func (s *ctlSched) RunJob(_ context.Context, name string) error {
 	if j == nil {
 		return scheduler.ErrNoSuchJob
 	}
-	s.wg.Add(1)
+	s.running.Add(1)
 	go func() {
-		defer s.wg.Done()
+		defer s.running.Add(-1)
 		j.fn(j.ctx)
 	}()
 	return nil
@@ -373,7 +401,10 @@ func buildController(sc *Scenario) (world, error) {
 	for i := uint64(0); i < sc.P["pre"]; i++ {
 		_, _ = msgr.Message(context.Background(), newSyncDuty(accts, w.nVals, w.start-sc.P["pre"]+i, w.f))
 	}
-	w.sched = &ctlSched{jobs: map[string]*ctlJob{}}
+	w.sched = &ctlSched{jobs: map[string]*ctlJob{}, due: sc.P["due"],
+		now: func() time.Time {
+			return w.clock.StartOfSlot(w.clock.CurrentSlot()).Add(time.Duration(sc.P["offset"]) * time.Second)
+		}}
 	evp := newEventsCapture()
 	ctx, cancel := context.WithCancel(context.Background())
 	w.cancel = cancel
@@ -436,13 +467,11 @@ func buildController(sc *Scenario) (world, error) {
 }
 
 func (w *ctlWorld) quiesce() string {
-	w.sched.wg.Wait()
-	if !waitGoroutines(w.baseG, 60*time.Second) {
+	if !waitGoroutines(w.baseG, 60*time.Second) || w.sched.running.Load() != 0 {
 		buf := make([]byte, 1<<19)
 		buf = buf[:runtime.Stack(buf, true)]
 		return fmt.Sprintf("goroutines started by the controller did not finish (%d > %d)\n%s", runtime.NumGoroutine(), w.baseG, buf)
 	}
-	w.sched.wg.Wait()
 	return ""
 }
 
@@ -534,13 +563,32 @@ func (w *ctlWorld) run(rep int, ri int, _ *Role, op *Op, call uint64) {
 	}
 }
 
-func (w *ctlWorld) finish(int) string { return w.quiesce() }
+func (w *ctlWorld) finish(rep int) string {
+	if why := w.quiesce(); why != "" {
+		return why
+	}
+	// At quiescence no attestation job is executing: a slot that is still marked
+	// as having pending attestations must have its job in the table, or the mark
+	// stays for ever (main.go waits for it before shutting down).
+	ctx := context.Background()
+	for slot := w.start - 1; slot <= w.start+uint64(rep)+2*w.spe; slot++ {
+		if w.svc.HasPendingAttestations(ctx, phase0.Slot(slot)) && !w.sched.JobExists(ctx, fmt.Sprintf("Attestations for slot %d", slot)) {
+			if w.staleMark == "" {
+				w.staleMark = fmt.Sprintf("after repetition %d (clock at slot %d): slot %d is marked as having pending attestations but no attestation job for it is scheduled or running", rep, w.start+uint64(rep), slot)
+			}
+		}
+	}
+	return ""
+}
 
-func (w *ctlWorld) judge(ev.TB, *Scenario) {
+func (w *ctlWorld) judge(t ev.TB, sc *Scenario) {
 	var hit, miss int64
 	for i := range w.hit {
 		hit += w.hit[i]
 		miss += w.miss[i]
+	}
+	if w.staleMark != "" {
+		ev.Violation(t, "pending-attestations-mark-without-job", sc, "%s", w.staleMark)
 	}
 	ev.LabelN("controller-job-fired", hit)
 	ev.LabelN("controller-job-absent", miss)
@@ -591,6 +639,8 @@ func init() {
 				"fastAtt":       rapid.Uint64Range(0, 1).Draw(t, "fastAtt"),
 				"fastSync":      rapid.Uint64Range(0, 1).Draw(t, "fastSync"),
 				"pre":           rapid.SampledFrom([]uint64{0, 98, 110}).Draw(t, "pre"),
+				"due":           rapid.SampledFrom([]uint64{0, 1, 2, 2}).Draw(t, "due"),
+				"offset":        rapid.SampledFrom([]uint64{0, 5, 11}).Draw(t, "offset"),
 			}
 			genFaults(t, p)
 			return p
